@@ -53,6 +53,15 @@ var scenarios = []scenario{
 	{"match-and-no-match",
 		"@@\nvar x expression\n@@\n-foo(x)\n+bar(x)\n",
 		[]string{"package a\n\nfunc f() { foo(1) }\n", "package b\n\nfunc g() { other(2) }\n"}},
+	{"import-metavar-two-names",
+		"@@\nvar n identifier\nvar x expression\n@@\n-import n \"old/p\"\n+import n \"new/p\"\n\n-n.Foo(x)\n+n.Bar(x)\n",
+		[]string{"package a\n\nimport pp \"old/p\"\n\nfunc f() { pp.Foo(1) }\n", "package b\n\nimport (\n\t\"fmt\"\n\tqq \"old/p\"\n)\n\nfunc g() { fmt.Println(qq.Foo(2)) }\n"}},
+	{"engine-panic-and-healthy",
+		"@@\nvar x expression\n@@\n-sel(x)\n+bar.x\n",
+		[]string{"package a\n\nfunc f() { sel(1 + 2) }\n", "package b\n\nfunc g() { sel(y) }\n"}},
+	{"commented-code-removed",
+		"@@\nvar x expression\n@@\n setup0()\n-debug(x)\n",
+		[]string{"package a\n\nfunc f() {\n\tsetup0()\n\tdebug(func() {\n\t\t// inner\n\t})\n\ttail() // t\n}\n", "package b\n\n// doc\nfunc g() {\n\tsetup0()\n\tdebug(1) // gone\n\t// own\n\ttail()\n}\n"}},
 	{"three-threads",
 		"@@\nvar x expression\n@@\n-foo(x)\n+bar(x, x)\n",
 		[]string{"package a\n\nfunc f() { foo(1) }\n", "package b\n\nfunc g() { foo(2 + 3) }\n", "package c\n\nfunc h() { other(0) }\n"}},
